@@ -766,7 +766,8 @@ def check_live(part, E, seam, cfg, init, hist, seed, detail):
             return
         x = y
         state = tuple(mres[0])
-        part.state_keys.add(stable_hash((E.tname, state)))
+        if part.state_keys is not None:
+            part.state_keys.add(stable_hash((E.tname, state)))
     # queries on the object at the end of the history
     for q in (('find', 1, 'p'), ('count', 2, 's')):
         mres = model(state, q)
